@@ -156,10 +156,16 @@ def script_cache_check(filename, cachefname):
     run_cached = False
     if os.path.isfile(cachefname):
         if os.stat(cachefname).st_mtime >= os.stat(filename).st_mtime:
-            with open(cachefname, "rb") as cfile:
-                if not _check_cache_versions(cfile):
-                    return False, None
+            try:
+                cfile = open(cachefname, "rb")
+            except OSError:
+                # Cache file cannot be read (permissions, I/O error).
+                # Ignore it — the script will be compiled from source.
+                return False, None
+            with cfile:
                 try:
+                    if not _check_cache_versions(cfile):
+                        return False, None
                     ccode = marshal.load(cfile)
                 except Exception:
                     # Cache file is corrupted (e.g. truncated by a crash).
@@ -210,10 +216,16 @@ def code_cache_check(cachefname):
     ccode = None
     run_cached = False
     if os.path.isfile(cachefname):
-        with open(cachefname, "rb") as cfile:
-            if not _check_cache_versions(cfile):
-                return False, None
+        try:
+            cfile = open(cachefname, "rb")
+        except OSError:
+            # Cache file cannot be read (permissions, I/O error).
+            # Ignore it — the code will be compiled from source.
+            return False, None
+        with cfile:
             try:
+                if not _check_cache_versions(cfile):
+                    return False, None
                 ccode = marshal.load(cfile)
             except Exception:
                 # Cache file is corrupted (e.g. truncated by a crash).
